@@ -570,6 +570,10 @@ class Analysis:
                     if isinstance(t, ast.Subscript):
                         hit(self.L(fn, t.value, n), n, f"line {n.lineno}: {ast.unparse(t)} {'deleted' if isinstance(n, ast.Delete) else 'assigned'}", True,
                             removal=isinstance(n, ast.Delete), key=t.slice, value=getattr(n, "value", None))
+                    elif isinstance(t, ast.Attribute) and record and self._code_object_state(fn, t) is not None:
+                        # state kept on a function / class object of the package: f.cache = ..., Class.counter += 1, type(self).seen = ...
+                        hit({"S:" + self._code_object_state(fn, t)}, n, f"line {n.lineno}: attribute {ast.unparse(t)} of a function / class object assigned", True,
+                            key=ast.Constant(t.attr), value=getattr(n, "value", None))
                     elif isinstance(t, ast.Attribute):
                         hit(self.L(fn, t.value, n), n, f"line {n.lineno}: attribute {ast.unparse(t)} {'deleted' if isinstance(n, ast.Delete) else 'assigned'}", True,
                             removal=isinstance(n, ast.Delete), key=ast.Constant(t.attr), value=getattr(n, "value", None))
@@ -622,6 +626,33 @@ class Analysis:
                             glob = frozenset(l for l in recv if not l.startswith("P:"))
                             hit(glob, n, f"line {n.lineno}: method {m}() of unknown effect called on it", False)
         return ch
+
+    def _code_object_state(self, fn, t):
+        """`t` = X.attr (store) where X is a function or class of the package (also cls / type(self) / self.__class__): the id of
+        that piece of state, else None."""
+        v = t.value
+        host = fn
+        while host is not None and host.cls is None:
+            host = self.fns.get(host.parent) if host.parent else None
+        if isinstance(v, ast.Name):
+            if v.id == "cls" and host is not None and "cls" in fn.all_params:
+                return self.sid(host.rel, f"{host.cls}.{t.attr}")
+            if v.id in fn.locals:
+                return None
+            g = fn
+            while g is not None:                              # nested function objects
+                if (g.rel, f"{g.q}.<locals>.{v.id}") in self.fns:
+                    return self.sid(g.rel, f"{g.q}.<locals>.{v.id}.{t.attr}")
+                g = self.fns.get(g.parent) if g.parent else None
+            r = self.resolve_name(fn.rel, v.id)
+            if r and r[0] == "fn":
+                return self.sid(r[1][0], f"{r[1][1]}.{t.attr}")
+            if r and r[0] == "class":
+                return self.sid(r[1], f"{r[2]}.{t.attr}")
+            return None
+        if host is not None and (ast.unparse(v) in ("type(self)", "self.__class__")):
+            return self.sid(host.rel, f"{host.cls}.{t.attr}")
+        return None
 
     def _reads(self, fn):
         ch = False
